@@ -21,7 +21,7 @@ META = {
     "exhaustive": {"quick": True, "thorough": True},
     "exhaustive_space": {"quick": "84 hosts x 84 leading-dot domains; 33 prefix lengths x edge addresses; 2^5 proxy-source subsets x 2 schemes x 4 no_proxy sources",
                          "thorough": "340 hosts x 340 leading-dot domains (labels {a,b,ab,ba}, up to 4 labels); 300 random canonical blocks per prefix length with edge addresses; all reply/credential combinations"},
-    "bounds": "SOCKS proxies not reachable (python_socks absent); lower/upper-case env precedence, user-only credentials and non-canonical CIDR blocks recorded, not judged",
+    "bounds": "the real python_socks package is absent: the SOCKS branch is driven through a stand-in that records what the library hands to it (calling convention only); lower/upper-case env precedence, user-only credentials and non-canonical CIDR blocks recorded, not judged",
     "required_counters": ["exempt_cases", "proxied_cases", "tunnel_cases"],
     "assumptions": ["python_socks absent"],
 }
@@ -30,6 +30,7 @@ META["claim"] += " " + 'Round 3b: IPv6 literal targets against CIDR / literal / 
 META["claim"] += " " + 'Round 4: credentials whose base64 form needs + and /; no_proxy entries with a slash that are no IPv4 block, before and after a valid block, for every prefix length.'
 META["claim"] += " " + 'Round 5: IPv4 targets in their other legal spellings (127.1, 2130706433, 0x7f.0.0.1, 0177.0.0.1 ...) against CIDR lists; REQUEST_METHOD / ALL_PROXY in the environment.'
 META["claim"] += " " + "Rounds 6-7: unescaped sub-delimiters in environment credentials, a shared empty no_proxy list; credentials with blanks at the ends; overlapping / nested / doubled blocks in one list; the SOCKS branch driven through a stand-in for python_socks (dedicated shard): proxy used exactly when the target is not exempt, type / remote-DNS flag / address / credentials / destination handed over as configured, TLS with the origin's name through the tunnel, upgrade request addressed to the origin."
+META["claim"] += " " + 'Round 8: 2xx CONNECT replies carrying Content-Length / Transfer-Encoding.'
 
 LABELS = ["a", "b", "ab", "ba"]
 
